@@ -51,4 +51,15 @@ def inScope (p : LocPath) : Option (Bool × Bool) :=
   | none => none
   | some frags => some (fragsOkM frags, decide (normPathM frags = p))
 
+/-- the principal-type flag of a name test (`True` = built for the attribute axis) -/
+def attrFlagM : NodeTest → Bool
+  | .principal a | .qprincipal a _ | .localName a _ | .qname a _ _ => a
+  | _ => false
+
+/-- the hypotheses of `C17.simple_eq_generic` (the full statement), as a computation:
+    SimplePathStrategy supports the path, and name tests off the attribute axis carry the element
+    principal type (what the parser builds) -/
+def fullScopeM (p : LocPath) : Bool :=
+  simpleSupports p && p.all fun s => s.axis == .attribute || !attrFlagM s.test
+
 end Genshi.Path.FragsM
